@@ -123,6 +123,24 @@ def refusal_kind(path):
     return ks[0] if re.search(r"\bfailed\b", src) else None
 
 
+def health_form(src, fname):
+    flat = " ".join(fn_body(src, "health_check").split())
+    if "ensure_connected(" not in flat or "call_message_with_timeout(" not in flat:
+        raise ExtractError(f"{fname}: health_check does not connect and call")
+    return {"invalidateOnError": bool(re.search(r"Err\(\w+\) => \{ invalidate_client\(", flat)),
+            "singleAttempt": "max_attempts" not in flat and "_with_retry" not in flat}
+
+
+def node_timeout(src, fn, fname):
+    """The per-node timeout is what reaches the client call."""
+    flat = " ".join(fn_body(src, fn).split())
+    m = re.search(r"let (\w+) = \w+\.config\.timeout;", flat)
+    if not m: return False
+    t = m.group(1)
+    calls = re.findall(r"\.call_(?:json|message)_with_timeout\(([^;]*?)\)(?:\.await)?[;?\s}]", flat)
+    return bool(calls) and all(c.split(",")[-1].strip() == t for c in calls)
+
+
 def extract():
     facts = {}
     facts["deadKinds"] = dead_kinds("src/client.rs")
@@ -139,6 +157,8 @@ def extract():
         facts[nm("otherRetry")] = other
         facts[nm("loopJson")] = loop_form(src, "call_json_with_retry", path)
         facts[nm("loopMessage")] = loop_form(src, "call_message_with_retry", path)
+        facts[nm("healthForm")] = health_form(src, path)
+        facts[nm("nodeTimeout")] = node_timeout(src, "call_json_with_retry", path) and node_timeout(src, "call_message_with_retry", path)
         facts[nm("filter")] = filter_form(src, path)
         facts[nm("fanOutOverTargets")] = fan_out(src, path)
         facts.setdefault("where", {})[path] = {"is_retryable_error": line_of(raw, "fn is_retryable_error"),
@@ -166,6 +186,10 @@ def render(f):
          f"def loopMessage : LoopForm := {lf(f['loopMessage'])}",
          f"def asyncLoopJson : LoopForm := {lf(f['asyncLoopJson'])}",
          f"def asyncLoopMessage : LoopForm := {lf(f['asyncLoopMessage'])}",
+         f"def healthForm : HealthForm := ⟨{b(f['healthForm']['invalidateOnError'])}, {b(f['healthForm']['singleAttempt'])}⟩",
+         f"def asyncHealthForm : HealthForm := ⟨{b(f['asyncHealthForm']['invalidateOnError'])}, {b(f['asyncHealthForm']['singleAttempt'])}⟩",
+         f"def nodeTimeout : Bool := {b(f['nodeTimeout'])}",
+         f"def asyncNodeTimeout : Bool := {b(f['asyncNodeTimeout'])}",
          f"def filter : FilterForm := .{f['filter']}",
          f"def asyncFilter : FilterForm := .{f['asyncFilter']}",
          f"def fanOutOverTargets : Bool := {b(f['fanOutOverTargets'])}",
